@@ -44,8 +44,8 @@ impl VxLine {
 //@   attr #[verifier::loop_isolation(false)]
 //@   sub R11 `s.len()` => `vx_blen(s)` *
 //@   sub R11 `s.is_ascii()` => `vx_is_ascii(s)` ?
-//@   sub R13 `for i in (0..vx_blen(s)).step_by(3) {` => `let mut vx_i: usize = 0; let vx_n: usize = vx_blen(s); while vx_i < vx_n { let i = vx_i; vx_i = if vx_i <= vx_n { vx_i + 3 } else { vx_n };`
-//@   sub R11 `u8::from_str_radix(&s[i..i + 2], 16)` => `vx_u8_from_str_radix16(vx_str_slice(s, i, i + 2))`
+//@   sub R13 `for _id_ in (0..__).step_by(3) {` => `let mut vx_i: usize = 0; let vx_n: usize = $2; while vx_i < vx_n { let $1 = vx_i; vx_i = if vx_i <= vx_n { vx_i + 3 } else { vx_n };`
+//@   sub R11 `u8::from_str_radix(&s[_id_.._id_ + 2], 16)` => `vx_u8_from_str_radix16(vx_str_slice(s, $1, $2 + 2))`
 //@   spec
 //@|    requires blen(s) <= usize::MAX - 4,
 //@|    ensures true, // O:asc.hex.no_panic (decoding the hex text cannot panic, whatever text it is given)
@@ -90,7 +90,7 @@ pub fn vx_str_from<'a>(s: &'a str, a: usize) -> (r: &'a str)
 { &s[a..] }
 #[verifier::external_body]
 pub struct VxDate { _p: u8 }
-//@ extract src/utils/logcat2dltmsgiterator.rs region `if mmdd.len() != 5` .. `let dd: u32 = mmdd[3..]` in fn parse_mmdd_str
+//@ extract src/utils/logcat2dltmsgiterator.rs region `if mmdd.len() != 5` .. `let _id_: u32 = mmdd[3..]` in fn parse_mmdd_str
 //@   sig pub fn mmdd_slices(mmdd: &str) -> (r: Option<VxDate>)
 //@   tail `None`
 //@   sub R11 `mmdd.len()` => `vx_blen(mmdd)`
@@ -218,6 +218,44 @@ impl DltChar4 {
 //@   spec
 //@|    requires old(vx_self).index < u32::MAX, // fewer than 2^32 messages (ASSUMED)
 //@|    ensures true, // O:asc.logcat.apid_msg_no_overflow (whatever the length of the tag)
+//@ end
+
+// get_apid_for_tag: the numbering loop for a tag that has no APID yet (R12: the per-namespace map is opaque; R11: the candidate - the `match`
+// on the tag's length with the snake-case / camel-case abbreviation and get_4digit_str - is cut to a stub: any four characters).
+// What is proved: the loop ends and its counter does not overflow, whatever the map holds (every candidate may be taken).
+#[verifier::external_body]
+pub struct VxTagMap { _p: u8 }
+impl VxTagMap {
+    // map.iter().find(|(_k, v)| v == &&apid)
+    #[verifier::external_body]
+    pub fn vx_find_apid(&self, apid: &DltChar4) -> (r: Option<(u8, u8)>) { unimplemented!() }
+    // map.iter().any(|(_k, v)| v == &apid)
+    #[verifier::external_body]
+    pub fn vx_apid_taken(&self, apid: &DltChar4) -> (r: bool) { unimplemented!() }
+    #[verifier::external_body]
+    pub fn vx_insert(&mut self, tag: &str, apid: DltChar4) { unimplemented!() }
+}
+#[verifier::external_body]
+pub fn vx_apid_candidate(trimmed_tag: &str, iteration: u16) -> (r: DltChar4) { unimplemented!() }
+//@ extract src/utils/mod.rs region `let mut iteration = 0u16;` .. `$end` in fn get_apid_for_tag
+//@   sig pub fn apid_numbering(map: &mut VxTagMap, tag: &str, trimmed_tag: &str) -> (r: DltChar4)
+//@   sub R11 `match trimmed_tag.len() { __ }` => `vx_apid_candidate(trimmed_tag, iteration)`
+//@   sub R12 `map.iter().find(|(_k, v)| v == &&apid)` => `map.vx_find_apid(&apid)` ?
+//@   sub R12 `map.iter().any(|(_k, v)| v == &apid)` => `map.vx_apid_taken(&apid)` ?
+//@   sub R12 `map.insert(tag.to_owned(), apid.to_owned())` => `map.vx_insert(tag, apid.to_owned())`
+//@   spec
+//@|    ensures true, // O:asc.apid.numbering_ends (termination and no counter overflow for every content of the map)
+//@   loop 1
+//@|    decreases 0xFFFF - iteration, // O:asc.apid.numbering_ends (whatever bound below the counter's range the loop gives itself)
+//@ end
+
+// the same statements in GenLog2DltMsgIterator::get_apid_info_msg
+//@ extract src/utils/genlog2dltmsgiterator.rs region `let index = self.index;` .. `$end` in GenLog2DltMsgIterator::get_apid_info_msg
+//@   sig pub fn genlog_apid_info_msg(vx_self: &mut VxLogcatHdr, apid: &DltChar4, reception_time_us: u64, timestamp_us: u64, payload: Vec<u8>) -> (r: Option<DltMessage>)
+//@   sub R12 `self` => `vx_self` *
+//@   spec
+//@|    requires old(vx_self).index < u32::MAX, // fewer than 2^32 messages (ASSUMED)
+//@|    ensures true, // O:asc.genlog.apid_msg_no_overflow
 //@ end
 
 // Asc2DltMsgIterator::next, a CAN line: from the position of the data-length capture to the decoded data bytes
